@@ -142,6 +142,17 @@ CHECKS["C06"] = dict(
          "<= 4 (thorough 6) substances",
     technique=Z, ref="DESIGN.md section 5 C06")
 
+CHECKS["C08"] = dict(
+    engine="Z", category="other",
+    text="bounded symbolic verification of the predicates behind 'success and sane' only: _result_is_sane(c0, x) on symbolic x and c0 "
+         "returns True <=> (x >= 0 and x <= (1+1e-9)*min_e(total_e/atoms_e)), with the bound written independently from the compositions; "
+         "dissolved(x) removes the solid and conserves every element and charge; the forward/backward precipitation switching conditions "
+         "are equivalent to the Ksp comparison of the statement in both orientations of the dissolution equilibrium",
+    note="NOT claimed (not applicable to this technique): that a converged numerical root satisfies Q=K / conservation to tolerance, the "
+         "19-of-20 success rate, agreement with the brentq scalar solver - properties of MINPACK/KINSOL/scipy runs on floats; stub: "
+         "upper_conc_bounds called with dtype=object; systems with <= 5 (thorough 7) species",
+    technique=Z, ref="DESIGN.md section 5 C08")
+
 NA = {
     "C09": "property is about float conversion factors produced inside the 'quantities' package and numpy array helpers; no symbolic "
            "value survives to_unitless (float(result)), and symbolic magnitudes alone would only re-prove linearity (DESIGN.md section 6)",
